@@ -188,6 +188,19 @@ package redblacktree
 //@   modifies nothing
 //@   ensures [C08 C17 C18] fresh(result) && ItInv(result) && result.tree == tree && Cur(result) == node.pos
 
+//@ -- String / output (C15: begins with the container's name; C17, C18: returns normally, reads only). output appends to the
+//@ -- caller's string through a *string parameter (a caller-owned cell), recursing over the subtree
+//@ func output
+//@   requires node != nil && node.tr != nil && ShapeInv(node.tr)
+//@   decreases node.b - node.a
+//@   modifies deref(str)
+//@   ensures [C15 C17 C18] hasPrefix(old(deref(str)), "RedBlackTree") ==> hasPrefix(deref(str), "RedBlackTree")
+
+//@ func Tree.String
+//@   requires ShapeInv(tree)
+//@   modifies nothing
+//@   ensures [C15 C17 C18] hasPrefix(result, "RedBlackTree")
+
 //@ func Tree.Iterator
 //@   requires ShapeInv(tree)
 //@   modifies nothing
